@@ -810,6 +810,8 @@ def check_buffer_access(chk, funcs, mods):
                     what = '%s(... %sdata ..., %s)' % (cn, pref, L)
             for L, pref in need:
                 ok = (L, pref) in have or L == pref + 'length'
+                if not ok and k == 'CallExpr' and astdb.callee_name(nd) == 'bufferSkipUnchecked':
+                    ok = _is_min_with_length(astdb.call_args(nd)[1], pref, body, tu)
                 if L.startswith('idx:'):
                     # index i with loop bound i < N where N <= B.length or N is B.length itself: accept `i < B.length`-style bounds
                     ok = any(fa[0] == 'le' and fa[2] == pref for fa in facts) or _index_bounded(nd, body, pref, tu)
@@ -818,6 +820,38 @@ def check_buffer_access(chk, funcs, mods):
                            'short input makes it read past the end of the file buffer'
                            % (what, fname, loc, L, pref, sorted('%s<=%slength' % h for h in have) or 'none'), '%s:raw-buffer-access' % fname, loc)
     return n_sites
+
+
+def _is_min_with_length(arg, pref, body, tu):
+    """arg is min(x, <pref>length) written as a conditional - (a < b) ? a : b, (a > b) ? b : a, with <= / >= likewise - where a or b is
+    the buffer's length or a once-initialised local holding it: the value never exceeds the length"""
+    e = strip(arg, casts=True)
+    if e.get('kind') != 'ConditionalOperator':
+        return False
+    ks = [c for c in kids(e) if c.get('kind')]
+    if len(ks) != 3:
+        return False
+    cond = strip(ks[0], casts=True)
+    if cond.get('kind') != 'BinaryOperator' or cond.get('opcode') not in ('<', '<=', '>', '>='):
+        return False
+    txt = lambda n: astdb.expr_text(strip(n, casts=True)).replace(' ', '')
+    x, y = txt(kids(cond)[0]), txt(kids(cond)[1])
+    t, f = txt(ks[1]), txt(ks[2])
+    smaller_first = cond['opcode'] in ('<', '<=')
+    if not ((smaller_first and (t, f) == (x, y)) or (not smaller_first and (t, f) == (y, x))):
+        return False
+
+    def is_length(n):
+        n0 = strip(n, casts=True)
+        if astdb.expr_text(n0).replace(' ', '') == (pref + 'length').replace(' ', ''):
+            return True
+        if n0.get('kind') == 'DeclRefExpr':
+            d = _local_decl(n0, body)
+            if d is not None and d.get('init') and not _assigned_elsewhere(d, body):
+                iks = [c for c in kids(d) if c.get('kind')]
+                return bool(iks) and astdb.expr_text(strip(iks[-1], casts=True)).replace(' ', '') == (pref + 'length').replace(' ', '')
+        return False
+    return is_length(kids(cond)[0]) or is_length(kids(cond)[1])
 
 
 def _index_bounded(nd, body, pref, tu):
@@ -1700,11 +1734,25 @@ def check_index_space_split(chk, funcs):
         if body is None:
             continue
 
-        def is_count(node, depth=0):
-            """the expression denotes the size of an imports container or a parameter count (through single-definition locals and
-            value-preserving wrappers)"""
+        def is_count(node, depth=0, body=body, f=f, tu=tu):
+            """the expression denotes the size of an imports container or a parameter count (through single-definition locals,
+            value-preserving wrappers, and a parameter that every caller passes such a count for)"""
             n = strip(node, casts=True)
             k = n.get('kind')
+            if k == 'DeclRefExpr' and n['referencedDecl'].get('kind') == 'ParmVarDecl' and depth < 3:
+                ps = [p_.get('id') for p_ in astdb.fn_params(f)]
+                if n['referencedDecl'].get('id') not in ps:
+                    return False
+                pi = ps.index(n['referencedDecl']['id'])
+                verdicts = []
+                for tu2, g in funcs:
+                    gb = astdb.fn_body(g)
+                    if gb is None or g is f:
+                        continue
+                    for c in walk(gb):
+                        if c.get('kind') == 'CallExpr' and astdb.callee_name(c) == f.get('name') and len(astdb.call_args(c)) > pi:
+                            verdicts.append(is_count(astdb.call_args(c)[pi], depth + 1, gb, g, tu2))
+                return bool(verdicts) and all(verdicts) and (verdicts[0] if all(v == verdicts[0] for v in verdicts) else True)
             if k == 'MemberExpr':
                 if n.get('name') == 'parameterCount':
                     return 'param'
@@ -1712,7 +1760,7 @@ def check_index_space_split(chk, funcs):
                     return True
                 return False
             if k == 'CallExpr' and (astdb.callee_name(n) or '').startswith('assertSize') and astdb.call_args(n):
-                return is_count(astdb.call_args(n)[0], depth)
+                return is_count(astdb.call_args(n)[0], depth, body, f, tu)
             if k == 'DeclRefExpr' and n['referencedDecl'].get('kind') == 'VarDecl' and depth < 3:
                 vid = n['referencedDecl']['id']
                 defs = []
@@ -1724,7 +1772,7 @@ def check_index_space_split(chk, funcs):
                         l = strip(kids(x)[0])
                         if l.get('kind') == 'DeclRefExpr' and l['referencedDecl'].get('id') == vid:
                             defs.append(None)
-                return len(defs) == 1 and defs[0] is not None and is_count(defs[0], depth + 1)
+                return len(defs) == 1 and defs[0] is not None and is_count(defs[0], depth + 1, body, f, tu)
             return False
         subs = []
         for n in walk(body):
